@@ -27,7 +27,7 @@ from checks.pcommon import prog, account, finish_case
 
 LANGS = ["swift", "scala", "python", "go", "typescript", "kotlin"]
 TRIGGERS = ["unit", "u8", "u16", "u32", "U53", "i32", "option", "vec", "map", "datetime", "generic", "bytes", "string"]
-POSITIONS = ["field", "newtype", "alias", "generic_arg", "struct_variant_field", "generic_alias"]
+POSITIONS = ["field", "field_default", "newtype", "alias", "generic_arg", "struct_variant_field", "generic_alias"]
 WRAPS = [(), ("vec",), ("option",), ("map",), ("vec", "vec"), ("option", "vec"), ("vec", "option"), ("map", "vec"), ("array",), ("slice",), ("array", "vec")]
 
 
@@ -60,6 +60,8 @@ def build_pd(ir, trig, pos, ws, name_chars, crate="", file_name=""):
     nm = RString(list(name_chars))
     if pos == "field":
         return ir.parsed_data(structs=[ir.struct(nm, [ir.field("f", ty)], generics=gens)], crate=crate, file_name=file_name)
+    if pos == "field_default":
+        return ir.parsed_data(structs=[ir.struct(nm, [ir.field("f", ty, has_default=True)], generics=gens)], crate=crate, file_name=file_name)
     if pos == "newtype":
         return ir.parsed_data(enums=[ir.enum_alg(nm, [ir.v_unit("U"), ir.v_tuple("N", ty)], generics=gens)], crate=crate, file_name=file_name)
     if pos == "alias":
@@ -271,6 +273,8 @@ def render(trig, pos, ws, name="Abc"):
     g = "<T>" if trig == "generic" else ""
     if pos == "field":
         return "#[typeshare]\npub struct %s%s { pub f: %s }\n" % (name, g, t)
+    if pos == "field_default":
+        return "#[typeshare]\npub struct %s%s { #[serde(default)] pub f: %s }\n" % (name, g, t)
     if pos == "newtype":
         return '#[typeshare]\n#[serde(tag = "type", content = "content")]\npub enum %s%s { U, N(%s) }\n' % (name, g, t)
     if pos == "alias":
